@@ -335,20 +335,21 @@ class Ctx:
         return sorted(bad), err
 
     # ---- violations -------------------------------------------------------
-    def _match_known(self, component, kind):
+    def _match_known(self, component, kind, detail="", tags=()):
         for f in self.known:
-            if (f["component"] == component or (f.get("component_prefix") and component.startswith(f["component_prefix"]))) and f["kind"] == kind:
-                return f
+            if not ((f["component"] == component or (f.get("component_prefix") and component.startswith(f["component_prefix"]))) and f["kind"] == kind):
+                continue
+            if f.get("detail_contains") and f["detail_contains"] not in str(detail):
+                continue
+            if f.get("requires_tags") and not set(f["requires_tags"]) <= set(tags):
+                continue        # same component/kind but outside the recorded triggering condition
+            return f
         return None
 
     def violation(self, component, kind, detail, replay, found_input=True, what=None, tags=()):
         """A property violation (found_input=True: concrete failing input on the
         implementation) or an unexplained broken proof / correspondence."""
-        kf = self._match_known(component, kind) if found_input else None
-        if kf is not None and kf.get("detail_contains") and kf["detail_contains"] not in str(detail):
-            kf = None
-        if kf is not None and kf.get("requires_tags") and not set(kf["requires_tags"]) <= set(tags):
-            kf = None       # same component/kind but outside the recorded triggering condition
+        kf = self._match_known(component, kind, detail, tags) if found_input else None
         if kf is not None:
             self.known_hits[kf["id"]] += 1
             return
